@@ -21,10 +21,17 @@ class Ctx:
         self.build = front.Build()
         self._runners = {}
         self.results = []          # per-obligation result dicts
+        self.build_failed = {}     # feature subset -> compiler output (a subset that does not build is C17's subject, not an engine failure)
         self.notes = []
 
     def prog(self, oc=True, features=None):
-        return self.build.program(oc, features)
+        fk = tuple(sorted(features)) if features else None
+        if fk in self.build_failed: raise front.BuildError(self.build_failed[fk])
+        try:
+            return self.build.program(oc, features)
+        except front.BuildError as ex:
+            if fk is not None: self.build_failed[fk] = str(ex)
+            raise
 
     def runner_path(self, profile, features=None):
         return native.build_runner(self.build, profile, features)
@@ -195,7 +202,7 @@ class EvalArm(Obligation):
         return entry, [tree], leaves, native_of
 
     def run(self, ctx):
-        prog = ctx.prog(self.oc)
+        prog = ctx.prog(self.oc, getattr(self, 'features', None))
         nk = prog.enum_key('number::Number')
         if nk: sem.set_number_variants(prog.enums[nk])
         e = eng_mod.Engine(prog, step_limit=self.limits.get('steps', 20000), timeout_ms=self.limits.get('timeout_ms', 30000), seed=ctx.seed)
@@ -207,7 +214,7 @@ class EvalArm(Obligation):
         if 'branch_timeout_ms' in self.limits: e.branch_timeout_ms = self.limits['branch_timeout_ms']
         st = eng_mod.State()
         profile = 'dev' if self.oc else 'release'
-        runner = ctx.runner(profile)
+        runner = ctx.runner(profile, getattr(self, 'features', None))
         entry, args, leaves, native_of = self.setup(ctx, prog, e, st, runner)
         for lf in leaves: e.assume(lf.constraint)
         if self.assume is not None: e.assume(self.assume)
@@ -560,7 +567,11 @@ def run_obligations(ctx, obs):
     for oc in need_oc:
         ctx.prog(oc); ctx.runner_path('dev' if oc else 'release')
     for o in obs:
-        if getattr(o, 'features', None): ctx.prog(getattr(o, 'oc', True), o.features); ctx.runner_path('dev' if getattr(o, 'oc', True) else 'release', o.features)
+        if getattr(o, 'features', None):
+            try:
+                ctx.prog(getattr(o, 'oc', True), o.features); ctx.runner_path('dev' if getattr(o, 'oc', True) else 'release', o.features)
+            except front.BuildError as ex:
+                ctx.build_failed.setdefault(tuple(sorted(o.features)), str(ex))
     jobs = min(ctx.jobs, len(obs))
     if jobs <= 1 or os.environ.get('VERIF_SERIAL'):
         return [_worker(i) for i in range(len(obs))]
